@@ -146,6 +146,34 @@ func template(i int) *scen.Scenario {
 				{Name: "can_push", RW: scen.Inter(scen.Comp("writer"), scen.Diff(scen.Comp("reader"), scen.Comp("banned")))},
 			}},
 		}}
+	case 3: // RECURSIVE tuple-to-userset: folder tree (viewer from parent, parent: [folder]), files in folders
+		return &scen.Scenario{Shape: "tree", Types: []scen.TypeDef{
+			{Name: "user"},
+			{Name: "folder", Rels: []scen.RelDef{
+				{Name: "parent", RW: scen.This(), Restr: []scen.Restr{scen.RObj("folder")}},
+				{Name: "banned", RW: scen.This(), Restr: []scen.Restr{U}},
+				{Name: "viewer", RW: scen.Union(scen.This(), scen.TTU("parent", "viewer")), Restr: []scen.Restr{U}},
+				{Name: "can_view", RW: scen.Diff(scen.Comp("viewer"), scen.Comp("banned"))},
+			}},
+			{Name: "file", Rels: []scen.RelDef{
+				{Name: "parent", RW: scen.This(), Restr: []scen.Restr{scen.RObj("folder")}},
+				{Name: "owner", RW: scen.This(), Restr: []scen.Restr{U}},
+				{Name: "viewer", RW: scen.Union(scen.Comp("owner"), scen.TTU("parent", "viewer"))},
+			}},
+		}}
+	case 4: // RECURSIVE userset: nested groups (member: [user, group#member]), areas granted to groups
+		return &scen.Scenario{Shape: "nest", Types: []scen.TypeDef{
+			{Name: "user"},
+			{Name: "group", Rels: []scen.RelDef{
+				{Name: "member", RW: scen.This(), Restr: []scen.Restr{U, G}},
+			}},
+			{Name: "area", Rels: []scen.RelDef{
+				{Name: "lead", RW: scen.This(), Restr: []scen.Restr{U}},
+				{Name: "excluded", RW: scen.This(), Restr: []scen.Restr{U}},
+				{Name: "member", RW: scen.Union(scen.This(), scen.Comp("lead")), Restr: []scen.Restr{U, G}},
+				{Name: "active", RW: scen.Diff(scen.Comp("member"), scen.Comp("excluded"))},
+			}},
+		}}
 	default: // chain of tuple-to-userset hops: org -> project -> item
 		return &scen.Scenario{Shape: "orgs", Conds: []string{"c1"}, Types: []scen.TypeDef{
 			{Name: "user"},
@@ -171,7 +199,15 @@ func template(i int) *scen.Scenario {
 	}
 }
 
-const nIDs = 3 // object ids 0..nIDs-1 per type
+// object ids 0..nIDs-1 per type (3, or 5 for the recursive templates: chains up to 4 deep); users u0..u2
+var nIDs = 3
+
+func idCount(t string) int {
+	if t == "user" {
+		return 3
+	}
+	return nIDs
+}
 
 func oid(t string, i int) string { return fmt.Sprintf("%s:%s%d", t, t[:1], i) }
 
@@ -190,7 +226,7 @@ func randomTuple(r *rec.Rand, s *scen.Scenario) (scen.Tuple, bool) {
 		}
 		rs := rd.Restr[r.Intn(len(rd.Restr))]
 		oi := r.Intn(nIDs)
-		ui := r.Intn(nIDs)
+		ui := r.Intn(idCount(rs.Type))
 		if rs.Type == td.Name {
 			if oi == nIDs-1 {
 				continue
@@ -236,7 +272,7 @@ func directedTuple(r *rec.Rand, s *scen.Scenario, probes []Probe) (scen.Tuple, b
 		}
 		user := pr.User
 		if pr.API == 3 {
-			user = oid("user", r.Intn(nIDs))
+			user = oid("user", r.Intn(3))
 		}
 		td := s.Type(typ)
 		if td == nil {
@@ -423,6 +459,10 @@ func recipes(tmpl int) []recipe {
 		}
 	case 1:
 		return []recipe{{"repo", "admin", "team", "member", "member"}, {"repo", "writer", "team", "member", "member"}}
+	case 3:
+		return []recipe{{"folder", "parent", "folder", "", "viewer"}, {"file", "parent", "folder", "", "viewer"}}
+	case 4:
+		return []recipe{{"group", "member", "group", "member", "member"}, {"area", "member", "group", "member", "member"}}
 	}
 	return []recipe{
 		{"project", "org", "org", "", "member"}, {"project", "org", "org", "", "admin"},
@@ -460,7 +500,11 @@ func makePlan(sub uint64, cfgIdx int, tier string) *Plan {
 	p.Cfg = cfgOf(cfgIdx)
 	p.Cfg.CtrlTTLms = []int{1, 20, 3600000}[r.Intn(3)]
 	p.Cfg.Pipeline = r.Chance(1, 3)
-	p.Tmpl = r.Intn(3)
+	p.Tmpl = r.Intn(5)
+	nIDs = 3
+	if p.Tmpl >= 3 {
+		nIDs = 5
+	}
 	p.scen = template(p.Tmpl)
 	p.probes = genProbes(r, p.scen)
 
@@ -567,6 +611,23 @@ func makePlan(sub uint64, cfgIdx int, tier string) *Plan {
 			link.User += "#" + rc.LRel
 		}
 		grant := scen.Tuple{Obj: oid(rc.LT, y), Rel: rc.GrantRel, User: pr.User}
+		// recursive relation: put the grant 1-3 hops further up a chain of the same links
+		var chain []scen.Tuple
+		for _, rr := range rcps {
+			if rr.T == rc.LT && rr.LT == rc.LT && y < nIDs-1 && r.Chance(2, 3) {
+				for hops, cur := r.Range(1, 3), y; hops > 0 && cur < nIDs-1; hops-- {
+					nx := cur + 1 + r.Intn(nIDs-1-cur)
+					l := scen.Tuple{Obj: oid(rc.LT, cur), Rel: rr.LinkRel, User: oid(rc.LT, nx)}
+					if rr.LRel != "" {
+						l.User += "#" + rr.LRel
+					}
+					chain = append(chain, l)
+					cur = nx
+					grant = scen.Tuple{Obj: oid(rc.LT, cur), Rel: rr.GrantRel, User: pr.User}
+				}
+				break
+			}
+		}
 		// other requests of the same kind to interleave: a batch containing the probe, a ListObjects
 		ask := func(cons int) {
 			switch r.Intn(4) {
@@ -588,6 +649,12 @@ func makePlan(sub uint64, cfgIdx int, tier string) *Plan {
 		if _, ok := present[grant.Key()]; !ok {
 			add(grant)
 			setup.Writes = append(setup.Writes, grant)
+		}
+		for _, l := range chain {
+			if _, ok := present[l.Key()]; !ok && l.Key() != link.Key() {
+				add(l)
+				setup.Writes = append(setup.Writes, l)
+			}
 		}
 		rm := func(t scen.Tuple) {
 			delete(present, t.Key())
